@@ -345,12 +345,12 @@ func (s *sess) checkMakeReject(rule string) {
 			switch e.Name {
 			case "SetFieldRefSeqNum":
 				hasSeq = true
-				if p, ok := e.Args[1].(*ssa.Parameter); !ok || p.Name() != "seqNum" {
+				if p, ok := e.Args[1].(*ssa.Parameter); !ok || an.Render(p) != "seqNum" {
 					bad = append(bad, "RefSeqNum operand is "+an.Render(e.Args[1])+", not the seqNum parameter")
 				}
 			case "SetFieldRefTagID":
 				hasTag = true
-				if p, ok := e.Args[1].(*ssa.Parameter); !ok || p.Name() != "tag" {
+				if p, ok := e.Args[1].(*ssa.Parameter); !ok || an.Render(p) != "tag" {
 					bad = append(bad, "RefTagID operand is "+an.Render(e.Args[1])+", not the tag parameter")
 				}
 			case "SetFieldSessionRejectReason":
